@@ -437,6 +437,41 @@ def handleView (ws : List String) : String :=
      | _, _, _, _ => "bad-op")
   | _ => "bad-op"
 
+
+/-! ### several same-named struct types (`recs`) -/
+
+def layout? (s : String) : Option (List (Str × List (Str × Int))) :=
+  allSome ((s.splitOn "|").zipIdx.map (fun (part, oi) => match part.splitOn "=" with
+    | [o, fs] => some (asciiStr o, (fs.splitOn ",").zipIdx.map (fun (f, p) => (asciiStr f, ((10 * (oi + 1) + p : Nat) : Int))))
+    | _ => none))
+
+def rop? (s : String) : Option ROp :=
+  match s.splitOn "." with
+  | [vm, o, "r", f] => (nat? vm).map (fun vm => .read vm (asciiStr o) (asciiStr f))
+  | [vm, o, "w", f, n] => do let vm ← nat? vm; let n ← int? n; pure (.write vm (asciiStr o) (asciiStr f) n)
+  | _ => none
+
+def robsOut : RObs → String
+  | .val n => "v:" ++ toString n
+  | .undef => "u"
+  | .unit => "-"
+  | .shadow => "shadow"
+  | .shadowRead => "shadowread"
+
+def recsOut (r : RecSt × List RObs) : String :=
+  ";".intercalate (r.2.map robsOut) ++ ";G:" ++
+    "|".intercalate (r.1.objs.map (fun o => strOf o.1 ++ "=" ++ ",".intercalate (o.2.map (fun e => strOf e.1 ++ ":" ++ toString e.2))))
+
+def handleRecs (ws : List String) : String :=
+  match ws with
+  | [_nvm, layout, steps] =>
+    (match layout? layout, allSome ((steps.splitOn ";").map rop?) with
+     | some objs, some ops =>
+       let out := recsOut (recRun { objs := objs, shadows := [] } ops)
+       reply out out []
+     | _, _ => "bad-op")
+  | _ => "bad-op"
+
 def handle (ws : List String) : String :=
   match ws with
   | ["num", t, n] => match nt? t, num? n with
@@ -501,6 +536,7 @@ def handle (ws : List String) : String :=
      | some st => reply (pathOut (fieldIndexByName st (asciiStr name))) (pathOut (Spec.fieldLookup st (asciiStr name))) []
      | none => "bad-op")
   | "view" :: rest => handleView rest
+  | "recs" :: rest => handleRecs rest
   | ["ret", k] => (match nat? k with | some k => reply (retOut k) (retOut k) [] | none => "bad-op")
   | _ => "bad-op"
 
